@@ -761,7 +761,9 @@ class _Prog:
         group = f"prog/{opname}/" + ",".join(_cls(o.v) if isinstance(o, _Val) else str(o) for o in operands)
         bs = [tuple(o.d.shape[:-2]) for o in operands if isinstance(o, _Val)]
         bc = "" if len(bs) < 2 else ("|same" if bs[0] == bs[1] else "|bcast")
-        label = f"p{self.idx}|{_dts(self.dt)}|{self.shape[0]}x{self.shape[1]}{bc}: {text}"
+        # structural tag: shapes of the operands of THIS step (known-finding regexes match on structure, not on the random program text)
+        tag = ";".join(f"{nm}={tuple(o.d.shape)}" for nm, o in zip("xy", [o for o in operands if isinstance(o, _Val)]))
+        label = f"p{self.idx}|{_dts(self.dt)}|{self.shape[0]}x{self.shape[1]}{bc}: {text} #{tag}"
         mag = max([o.mag for o in operands if isinstance(o, _Val)] + [float(exp.abs().max()) if exp.numel() else 0.0])
         ref = max(1.0, float(exp.abs().max()) if exp.numel() else 1.0)
         r = check_value(self.rec, group, label, fn, exp, scale=scale * max(1.0, mag / ref), allowed=allowed)
